@@ -1740,6 +1740,12 @@ impl DnsOutgoing {
         self.id = id;
     }
 
+    /// Marks this message as a unicast (not multicast) message: its `id` is then
+    /// written to the packets instead of 0.
+    pub fn set_unicast(&mut self) {
+        self.multicast = false;
+    }
+
     pub const fn is_query(&self) -> bool {
         (self.flags & FLAGS_QR_MASK) == FLAGS_QR_QUERY
     }
